@@ -598,8 +598,11 @@ def r15(repo, rep):
     f = repo.f("get_Pk")
     rep.analysed(f)
     env = {_k(s.targets[0]): _k(s.value) for s in f.node.body if isinstance(s, ast.Assign)}
-    ok = env.get("Nk") == "Counter(dict(G.degree()).values())" and env.get("Pk") in (
-        "{x:Nk[x]/float(G.order())forxinNk.keys()}", "{x:Nk[x]/G.order()forxinNk.keys()}", "{x:Nk[x]/float(G.order())forxinNk}")
+    pk = env.get("Pk") or ""
+    for nx_ in N_EXPRS:
+        pk = pk.replace("float(%s)" % nx_, "N").replace(nx_, "N")
+    ok = env.get("Nk") == "Counter(dict(G.degree()).values())" and pk in (
+        "{x:Nk[x]/NforxinNk.keys()}", "{x:Nk[x]/NforxinNk}")
     rep.ob("R15", ok, "get_Pk = degree histogram / number of nodes", func=f, node=f.node, construct="get_Pk body",
            detail="" if ok else "get_Pk changed")
     # get_Pnk: every (node, neighbour) contributes 1/(k1*Nk[k1]) to Pnk[k1][k2]
